@@ -15,18 +15,63 @@ pub fn cli_path() -> String {
     std::env::var("ADF_BDD_CLI").unwrap_or_else(|_| machinery_error("ADF_BDD_CLI is not set (the run script builds the CLI and sets it)"))
 }
 
-pub fn run_cli(cli: &str, args: &[String]) -> CliOut {
-    let o = Command::new(cli)
-        .args(args)
-        .env_remove("RUST_LOG")
-        .env("RUST_BACKTRACE", "0")
-        .output()
-        .unwrap_or_else(|e| machinery_error(&format!("cannot run the CLI binary: {}", e)));
-    CliOut {
-        code: o.status.code(),
-        stdout: String::from_utf8_lossy(&o.stdout).to_string(),
-        stderr: String::from_utf8_lossy(&o.stderr).to_string(),
+/// wall-clock limit of one CLI run; a run that is still going then is killed and judged as a hang (`code` None and
+/// `hung` set). The longest legitimate runs of the checks take a few seconds.
+pub fn cli_deadline() -> std::time::Duration {
+    std::time::Duration::from_secs(std::env::var("VERIF_CLI_DEADLINE_S").ok().and_then(|s| s.parse().ok()).unwrap_or(150))
+}
+
+fn run_cmd(mut c: Command) -> CliOut {
+    use std::io::Read;
+    use std::process::Stdio;
+    c.stdin(Stdio::null()).stdout(Stdio::piped()).stderr(Stdio::piped());
+    let mut child = c.spawn().unwrap_or_else(|e| machinery_error(&format!("cannot run the CLI binary: {}", e)));
+    let mut so = child.stdout.take().unwrap();
+    let mut se = child.stderr.take().unwrap();
+    let t1 = std::thread::spawn(move || {
+        let mut v = vec![];
+        let _ = so.read_to_end(&mut v);
+        v
+    });
+    let t2 = std::thread::spawn(move || {
+        let mut v = vec![];
+        let _ = se.read_to_end(&mut v);
+        v
+    });
+    let t0 = std::time::Instant::now();
+    let deadline = cli_deadline();
+    let mut nap = std::time::Duration::from_micros(100);
+    let mut hung = false;
+    let status = loop {
+        match child.try_wait() {
+            Ok(Some(st)) => break Some(st),
+            Ok(None) => {
+                if t0.elapsed() > deadline {
+                    let _ = child.kill();
+                    let _ = child.wait();
+                    hung = true;
+                    break None;
+                }
+                std::thread::sleep(nap);
+                if nap < std::time::Duration::from_millis(4) {
+                    nap *= 2;
+                }
+            }
+            Err(e) => machinery_error(&format!("cannot wait for the CLI binary: {}", e)),
+        }
+    };
+    let stdout = String::from_utf8_lossy(&t1.join().unwrap_or_default()).to_string();
+    let mut stderr = String::from_utf8_lossy(&t2.join().unwrap_or_default()).to_string();
+    if hung {
+        stderr.push_str(&format!("\n(no exit within {} s: the run was killed; {} lines had been printed)", deadline.as_secs(), stdout.lines().count()));
     }
+    CliOut { code: status.and_then(|s| s.code()), stdout, stderr }
+}
+
+pub fn run_cli(cli: &str, args: &[String]) -> CliOut {
+    let mut c = Command::new(cli);
+    c.args(args).env_remove("RUST_LOG").env("RUST_BACKTRACE", "0");
+    run_cmd(c)
 }
 
 pub fn run_cli_env(cli: &str, args: &[String], env: &[(&str, &str)]) -> CliOut {
@@ -35,8 +80,7 @@ pub fn run_cli_env(cli: &str, args: &[String], env: &[(&str, &str)]) -> CliOut {
     for (k, v) in env {
         c.env(k, v);
     }
-    let o = c.output().unwrap_or_else(|e| machinery_error(&format!("cannot run the CLI binary: {}", e)));
-    CliOut { code: o.status.code(), stdout: String::from_utf8_lossy(&o.stdout).to_string(), stderr: String::from_utf8_lossy(&o.stderr).to_string() }
+    run_cmd(c)
 }
 
 /// one printed interpretation: (label, value) in printed order; None if the line is not an interpretation line
